@@ -27,6 +27,16 @@ harness!(sizing_bloom_usable, unwind 12, ln, {
     chk!("at_least_one_hash_function", f.k() >= 1);
     chk!("at_least_one_bit", f.m() >= 1);
     chk!("k_bounded", f.k() <= 9);
+    // the optimum is k = log2(1/p) hash functions; k may be truncated or rounded (comparisons with powers of two only: exact)
+    let (mut e, mut pw) = (0usize, 1.0f64); // 2^-(e+1) < p <= 2^-e = pw
+    for _ in 0..9 {
+        if p <= pw * 0.5 {
+            pw *= 0.5;
+            e += 1;
+        }
+    }
+    let k = f.k();
+    chk!("k_within_one_of_optimum", if e == 0 { k == 1 } else { k == e || (k == e + 1 && p < pw) });
     cov!("p_above_half", p > 0.5);
     cov!("n1_p09", n == 1 && p > 0.9);
     cov!("p_small", p < 0.01 && n == 16);
@@ -78,4 +88,46 @@ harness!(sizing_qf_quotient_remainder_kernel, unwind 4, {
     chk!("quotient_in_range", qq < (1usize << q));
     cov!("uses_all_64_bits", q + r == 64);
     cov!("trash_bits_set", q + r < 64 && (h >> (q + r)) != 0);
+});
+
+/// C07 "BloomFilter::len() tracks the number of distinct inserted elements": len() is the standard estimate
+/// -(m/k) ln(1 - X/m) of the number of insertions from the number X of set bits. Decided for m = 64, k in 1..=3 and EVERY bit
+/// pattern, against the band that contains ln (so a changed constant, a swapped m/k or a wrong argument shows).
+harness!(sizing_bloom_len_estimate, unwind 67, ln, {
+    let k = any_usize();
+    asm!(k >= 1 && k <= 3);
+    let mut f = BloomFilter::<Elem, IterBH>::with_params_and_hash(64, k, IterBH { salt: 0 });
+    let word = any_u64();
+    asm!(word != u64::MAX);
+    {
+        let bs = f.verif_bits_mut();
+        for i in 0..64 {
+            bs.set(i, (word >> i) & 1 == 1);
+        }
+    }
+    let x = word.count_ones() as f64;
+    let (lo, hi) = ln_band(1.0 - x / 64.0);
+    let est = f.len() as f64;
+    let c = 64.0 / (k as f64);
+    chk!("len_estimate_not_below_formula", est >= c * (-hi) - 1.0 - 1e-6);
+    chk!("len_estimate_not_above_formula", est <= c * (-lo) + 1e-6);
+    cov!("half_full", word.count_ones() == 32);
+    cov!("one_bit", word.count_ones() == 1);
+});
+
+/// C07 rate, Bloom: m must not fall short of the optimum n ln(1/p) / ln(2)^2 (beyond the width of the band that contains ln and
+/// the integer truncation) - a filter with fewer bits cannot meet p whatever k is. p ranges over the dyadic grid a/256 so
+/// that the float multipliers have short operands (with an arbitrary 53-bit p this harness does not finish in 40 min).
+harness!(sizing_bloom_rate, unwind 12, ln, {
+    let n = any_usize();
+    asm!(n >= 1 && n <= 16);
+    let a = any_u8();
+    asm!(a >= 1);
+    let p = (a as f64) / 256.0;
+    let f = BloomFilter::<Elem, IterBH>::with_properties_and_hash(n, p, IterBH { salt: 0 });
+    let (_lo, hi) = ln_band(p);
+    let m_need = (n as f64) * (-hi) / (std::f64::consts::LN_2 * std::f64::consts::LN_2);
+    chk!("m_adequate_for_rate", f.m() as f64 >= 0.999 * m_need - 1.0);
+    cov!("p_1_percent", a <= 3 && n == 16);
+    cov!("p_half", a == 128);
 });
